@@ -78,6 +78,10 @@ func main() {
 		fmt.Fprintln(os.Stderr, "unknown domain", os.Args[1])
 		os.Exit(2)
 	}
+	if os.Args[1] == "stress" {
+		// a stress case is many rounds with their own 2-3 s liveness timeouts; on a loaded machine the rounds take longer
+		caseTimeout = 30 * time.Second
+	}
 	sc := bufio.NewScanner(os.Stdin)
 	sc.Buffer(make([]byte, 1<<20), 1<<26)
 	hdrs, bodies := splitCases(sc)
